@@ -349,10 +349,15 @@ class Check:
             k = self.rng.randrange(len(cases))
             self.samples.append({"stream": stream, "case": show_case(cases[k]), "impl": results[k][:300]})
 
-    def compare(self, stream, cases, impl, model, classify=None, nontrivial=None, project=None, kernel=True):
+    def compare(self, stream, cases, impl, model, classify=None, nontrivial=None, project=None, kernel=True, spec=True):
         """Line-by-line comparison of implementation and model answers.
         classify(case, impl, model) -> None (not a violation of the property: e.g. outside its
-        domain), or a dict describing the violation.  Default: every disagreement is one."""
+        domain), or a dict describing the violation.  Default: every disagreement is one.
+        spec=True: the cases lie in the domain where the property fixes the answer and the model's answer is
+        that answer (by the theorems), so a disagreeing case is an input on which the property fails.
+        spec=False: arbitrary / corrupted inputs on which the property fixes only part of the outcome (the
+        module's own predicates judge that part); a disagreement then means that the correspondence no longer
+        checks, and is reported with "no-failing-input-found" unless a predicate found a failing input."""
         self.record(stream, cases, impl, nontrivial or (lambda c, r: not r.startswith("err")))
         if kernel:
             for k in range(0, len(cases), max(1, len(cases) // 40)):
@@ -361,7 +366,7 @@ class Check:
             pi, pm = (project(i), project(m)) if project else (i, m)
             if pi != pm:
                 self.disagreements += 1
-                v = {"kind": "correspondence", "stream": stream, "case": show_case(c), "impl": i, "model": m}
+                v = {"kind": "correspondence" if spec else "correspondence-only", "stream": stream, "case": show_case(c), "impl": i, "model": m}
                 if classify:
                     extra = classify(c, i, m)
                     if extra is None:
@@ -440,6 +445,10 @@ class Check:
                 self.notes.append("known finding class %s not reproduced in this run" % k["class"])
         nviol = 0
         self.violations.sort(key=lambda v: len(json.dumps(v.get("case", ""))))
+        weak = [v for v in self.violations if v.get("kind") == "correspondence-only"]
+        self.violations = [v for v in self.violations if v.get("kind") != "correspondence-only"]
+        for st in sorted({v["stream"] for v in weak}):
+            self.broken.append("correspondence:" + st)
         for idx, v in enumerate(self.violations[:5]):
             path = os.path.join(ROOT, "replays", "%s-%d.json" % (self.pid, idx))
             v = dict(v, property=self.pid, seed=self.seed, tier=self.tier)
@@ -452,9 +461,10 @@ class Check:
             with open(path, "w") as f:
                 json.dump({"property": self.pid, "seed": self.seed, "tier": self.tier,
                            "no_longer_checks": self.broken, "proof_error": self.proof.get("error", "")[-3000:],
-                           "kernel": self.kernel, "explanation":
+                           "kernel": self.kernel, "disagreeing_cases": weak[:5], "explanation":
                            "a theorem or the correspondence no longer checks and the search found no input on which "
-                           "the property itself fails"}, f, indent=1)
+                           "the property itself fails (disagreeing_cases: inputs on which model and implementation "
+                           "differ where the property does not fix the answer)"}, f, indent=1)
             lines.append("VIOLATION property=%s replay=%s no-failing-input-found" % (self.pid, path))
             nviol += 1
         wall = time.time() - self.t0
